@@ -264,6 +264,15 @@ func Drive(cfg *Config, fn RunFn) int {
 	res := &Result{Prop: cfg.Prop, Scenario: cfg.Scenario, Stats: map[string]int{}, Others: map[string]int{}, Skipped: map[string]int{}, Race: RaceBuild}
 	sigs := map[string]bool{}
 	knownHits := map[string]*KnownHit{}
+	var hashes *os.File
+	if p := cfg.Opts["dump_hashes"]; p != "" {
+		// determinism self-test: one line per run (index, event-log hash, tape length, violation class)
+		if hashes, err = os.Create(p); err != nil {
+			fmt.Println("INFRA:", err)
+			return 2
+		}
+		defer hashes.Close()
+	}
 	code := 0
 	for i := uint64(0); i < cfg.Count; i++ {
 		if cfg.Budget > 0 && time.Since(t0).Seconds() > cfg.Budget {
@@ -274,8 +283,18 @@ func Drive(cfg *Config, fn RunFn) int {
 		tape := NewTape(seed)
 		os.WriteFile(cfg.Out+".cur", []byte(fmt.Sprintf("%d", run)), 0o644)
 		wd := watchdog(fmt.Sprintf("run %d of %s/%s seed %d", run, cfg.Prop, cfg.Scenario, cfg.Seed))
-		out := fn(tape, false)
+		out := fn(tape, cfg.Opts["print_log"] == "1")
 		wd.Stop()
+		if cfg.Opts["print_log"] == "1" {
+			fmt.Println(out.LogText)
+		}
+		if hashes != nil {
+			cls := "-"
+			if out.V != nil {
+				cls = out.V.Class
+			}
+			fmt.Fprintf(hashes, "%d %s %d %s\n", run, out.LogHash, tape.Pos(), cls)
+		}
 		res.Runs++
 		res.Steps += uint64(out.Steps)
 		res.SimTimeNs += int64(out.SimTime)
